@@ -12,7 +12,7 @@ DEMO=$(git status --porcelain | grep -o '[a-z_/]*tests/seeded_demo.rs' | head -1
 PKG=$(echo $DEMO | cut -d/ -f1)
 case $PKG in libadsb_deku) P=adsb_deku;; rsadsb_common) P=rsadsb_common;; apps) P=rsadsb_apps;; esac
 # 1. with the change: suite (other than demo) passes, demo fails
-git stash -q -- . ':!SEEDED' ':!'"$DEMO" 2>/dev/null
+git checkout -q -- . 2>/dev/null
 git checkout -q -- . 2>/dev/null
 git apply $OUT/patch.diff || { echo "patch does not apply"; exit 1; }
 export CARGO_NET_OFFLINE=true
